@@ -330,6 +330,7 @@ func childMain(args []string) {
 			}
 		}
 		sharedStress(enc, *g)
+		sharedFrozenStress(enc, *g)
 		// G goroutines execute different programs at the same time, several rounds;
 		// each result is compared with the sequential one
 		var mu sync.Mutex
@@ -437,6 +438,94 @@ func sharedStress(enc *json.Encoder, g int) {
 		}
 	}
 	enc.Encode(map[string]any{"kind": "stress", "i": -1, "trials": n})
+}
+
+// sharedFrozenStress: frozen values shared by several threads (as predeclared
+// values are): some goroutines iterate over them (for loops, comprehensions,
+// sorted, set algebra) while others attempt every kind of mutation and others
+// only read.  The message of every failed mutation, and every value read, must be
+// what a single-threaded run reports, whatever the interleaving.
+func sharedFrozenStress(enc *json.Encoder, g int) {
+	mk := func() starlark.StringDict {
+		t := &starlark.Thread{Name: "mk"}
+		gl, err := starlark.ExecFileOptions(fileOptions(1), t, "shared.star",
+			"shared_list = [\"shared_list_element_%d_long\" % i for i in range(60)]\nshared_dict = {k: i for i, k in enumerate(shared_list)}\nshared_set = set(shared_list)\nshared_nested = [shared_list, shared_dict, (shared_set,)]\n", predeclared)
+		if err != nil {
+			panic(err)
+		}
+		return gl // frozen by ExecFile
+	}
+	iterSrc := "def it():\n    n = 0\n    for r in range(40):\n        for x in shared_list: n += len(x)\n        n += len([k for k in shared_dict]) + len(sorted(shared_set)) + len([y for y in shared_nested[0] if y])\n        for k, v in shared_dict.items(): n += v\n    return n\nresult = it()\n"
+	mutators := []string{
+		"shared_list.append(1)", "shared_list.clear()", "shared_list[0] = 1", "shared_list.extend([1])", "shared_list.insert(0, 1)", "shared_list.pop()", "shared_list.remove(shared_list[0])",
+		"def f():\n    l = shared_list\n    l += [1]\nf()", "shared_dict[\"new_key_long_enough\"] = 1", "shared_dict.clear()", "shared_dict.pop(shared_list[0])", "shared_dict.popitem()", "shared_dict.setdefault(\"zz_long_key_name\", 1)", "shared_dict.update({\"q\": 1})",
+		"shared_set.add(\"another_long_element\")", "shared_set.clear()", "shared_set.discard(shared_list[0])", "shared_set.pop()", "shared_set.remove(shared_list[0])", "shared_set.update([\"x_long_element_name\"])", "shared_nested[0].append(2)", "shared_nested.append(3)",
+		"def g():\n    for x in shared_list:\n        shared_list.append(x)\ng()", "def h():\n    for k in shared_dict:\n        shared_dict[k] = 0\nh()",
+	}
+	run := func(shared starlark.StringDict, src string) string {
+		pre := starlark.StringDict{}
+		for k, v := range predeclared {
+			pre[k] = v
+		}
+		for k, v := range shared {
+			pre[k] = v
+		}
+		t := &starlark.Thread{Name: "shared"}
+		t.SetMaxExecutionSteps(5000000)
+		gl, err := starlark.ExecFileOptions(fileOptions(1|8|4), t, "s.star", src, pre)
+		if err != nil {
+			return "error: " + err.Error()
+		}
+		if r, ok := gl["result"]; ok {
+			return "result: " + r.String()
+		}
+		return "ok"
+	}
+	seq := mk()
+	want := map[string]string{iterSrc: run(seq, iterSrc)}
+	for _, mu := range mutators {
+		want[mu] = run(seq, mu)
+	}
+	if g < 6 {
+		g = 6
+	}
+	deadline := time.Now().Add(10 * time.Second)
+	for trial := 0; trial < 40 && time.Now().Before(deadline); trial++ {
+		shared := mk()
+		var wg sync.WaitGroup
+		var mux sync.Mutex
+		bad := ""
+		for k := 0; k < g; k++ {
+			wg.Add(1)
+			go func(k int) {
+				defer wg.Done()
+				if k%2 == 0 {
+					if got := run(shared, iterSrc); got != want[iterSrc] {
+						mux.Lock()
+						bad = "iterating program: " + got + " (sequential: " + want[iterSrc] + ")"
+						mux.Unlock()
+					}
+					return
+				}
+				for rep := 0; rep < 6; rep++ {
+					for _, mu := range mutators {
+						if got := run(shared, mu); got != want[mu] {
+							mux.Lock()
+							bad = strings.ReplaceAll(mu, "\n", "; ") + " => " + got + " (sequential: " + want[mu] + ")"
+							mux.Unlock()
+							return
+						}
+					}
+				}
+			}(k)
+		}
+		wg.Wait()
+		if bad != "" {
+			enc.Encode(map[string]any{"kind": "diverge", "where": "shared-frozen-values", "i": -1, "a": "error: (sequential run) see b", "b": "error: " + bad,
+				"program": "frozen list/dict/set shared by goroutines: half of them iterate, the others attempt mutations; trial " + fmt.Sprint(trial)})
+			return
+		}
+	}
 }
 
 // --------------------------------------------------------------------- parent
